@@ -3,10 +3,12 @@
    (2) apply_window on the recorded graph yields the windows the async steps saw (apply_window_spec, under non-decreasing seq_in, which msgs_law provides);
    (3) the compiled run satisfies the dataflow equations whenever check_sym accepts the instance (runner_dataflow) - validated on every instance;
    (4) two traces that satisfy the dataflow equations for the same windowed graph, step function and initial rng/state agree on every vertex all of whose
-   ancestors are covered (dataflow_unique).  The composition (1)-(4) into one closed statement is not assembled in Coq (see DESIGN: _partial); the
-   per-instance equality is decided by the replay comparison of the harness. *)
+   ancestors are covered (dataflow_unique).  (3)+(4) are composed into the closed statement C01_replay_unique (Replay.v) under the decidable hypothesis check_replay, which the
+   harness evaluates (extracted) on every instance; the asynchronous half (1)+(2) - that the recorded execution satisfies eq_at for the same (ts_c, wins_c) -
+   is stated by its component laws below and is not yet assembled into one Coq term (see DESIGN: _partial); the per-instance equality is decided by the
+   replay comparison of the harness. *)
 From Coq Require Import List Arith ZArith Bool.
-From Rex Require Import KahnL AsyncModel2 AsyncStable ConflInv RexDet AsyncLaws AsyncLaws2 AsyncLaws3 AsyncLaws4 CompiledModel WindowSpec WindowPush RunnerSym CheckSym Dataflow.
+From Rex Require Import KahnL AsyncModel2 AsyncStable ConflInv RexDet AsyncLaws AsyncLaws2 AsyncLaws3 AsyncLaws4 CompiledModel WindowSpec WindowPush RunnerSym CheckSym Dataflow Replay.
 Open Scope Z_scope.
 
 (* uniqueness of solutions of the dataflow equations: two traces over the same windowed graph, step function and initial values agree wherever both are defined *)
@@ -38,4 +40,22 @@ Print Assumptions C01_async_state_chain.
 Theorem C01_async_window_is_lastn : forall (X : Type) (w0 : list X) (gs : list (list X)), fold_left push_all gs w0 = lastn (length w0) (w0 ++ concat gs).
 Proof. exact @window_is_lastn. Qed.
 Print Assumptions C01_async_window_is_lastn.
+(* CLOSED composition of (3)+(4): when check_replay accepts the instance and ring sizes (check_sym + no vertex executed twice), ANY execution T of the windowed graph the compiled run executes (timestamps ts_c, windows wins_c read off the value-independent symbolic log) with the same step function, initial states and default outputs - the recorded asynchronous execution is one by (1)+(2) - has, on every vertex both define, the same state-before and the same output as the compiled replay T_c *)
+Theorem C01_replay_unique : forall (I : inst) (sizes : list Z) (Val : Type) (f : nat -> Z -> Z -> Val -> list (list (Z * Z * Z * Val)) -> Val) (vi vd : nat -> Val) (p0 np : nat), check_replay I sizes p0 np = true -> forall T : trace Val, (forall (n : nat) (k : Z), eq_at Val f vi vd (ts_c I sizes p0 np) (wins_c I sizes p0 np) T n k) -> (forall (n : nat) (k : Z) (x : Val * Val), T n k = Some x -> 0 <= k) -> forall (n : nat) (k : Z) (x1 x2 : Val * Val), T n k = Some x1 -> T_c I sizes Val f vi vd p0 np n k = Some x2 -> x1 = x2.
+Proof. exact @replay_unique. Qed.
+Print Assumptions C01_replay_unique.
 
+(* the compiled trace satisfies the dataflow equations of the graph it executes (every row's state is the initial state or the previous step's output, every window entry is the scheduled producer's output or the default) *)
+Theorem C01_compiled_solves_dataflow : forall (I : inst) (sizes : list Z) (Val : Type) (f : nat -> Z -> Z -> Val -> list (list (Z * Z * Z * Val)) -> Val) (vi vd : nat -> Val) (p0 np : nat), check_replay I sizes p0 np = true -> forall (n : nat) (k : Z), eq_at Val f vi vd (ts_c I sizes p0 np) (wins_c I sizes p0 np) (T_c I sizes Val f vi vd p0 np) n k.
+Proof. exact @compiled_solves_dataflow. Qed.
+Print Assumptions C01_compiled_solves_dataflow.
+
+(* non-vacuity: a concrete two-node, three-partition instance passes check_replay and check_schedule *)
+Theorem C01_check_replay_satisfiable : check_replay ex_inst (2 :: 1 :: nil) 0 3 = true /\ check_schedule ex_inst = true.
+Proof. exact @ex_check_replay. Qed.
+Print Assumptions C01_check_replay_satisfiable.
+
+(* non-vacuity: on that instance the probe replay defines supervisor vertex 2 and its window holds producer outputs 1 and 2 *)
+Theorem C01_replay_defined_somewhere : T_c ex_inst (2 :: 1 :: nil) Z probe (fun n : nat => 1 + nid ex_inst n) (fun n : nat => 3 + nid ex_inst n) 0 3 1%nat 2 <> None /\ wins_c ex_inst (2 :: 1 :: nil) 0 3 1 2 = (0%nat, (1, 74, 76) :: (2, 138, 140) :: nil) :: nil.
+Proof. exact @ex_replay_defined. Qed.
+Print Assumptions C01_replay_defined_somewhere.
